@@ -708,6 +708,12 @@ func (e *Exec) probeAttestation(args []Value) {
 		e.probes = append(e.probes, probeRec{Label: fmt.Sprintf("shape/recok/%d", i), T: recok})
 		for j, kj := range keys {
 			e.probes = append(e.probes, probeRec{Label: fmt.Sprintf("shape/member/%d/%d", i, j), T: e.bytesEqual(kj, key)})
+			// same X coordinate as attester j (a non-member with this property is the negated key)
+			var xs []*Term
+			for k := 1; k < 33; k++ {
+				xs = append(xs, tb.Eq(e.byteAt(kj, k), e.byteAt(key, k)))
+			}
+			e.probes = append(e.probes, probeRec{Label: fmt.Sprintf("shape/xeq/%d/%d", i, j), T: tb.And(tb.Eq(kj.len, tb.BV(65, 64)), tb.And(xs...))})
 		}
 		var xs, ys []*Term
 		xs = append(xs, tb.BV(0, bigW-256))
